@@ -574,6 +574,48 @@ func (fd *Client) BatchWriteItem(input *dynamodb.BatchWriteItemInput) (*dynamodb
 	}, nil
 }
 
+// BatchGetItemWithContext mock response for dynamodb
+func (fd *Client) BatchGetItemWithContext(ctx aws.Context, input *dynamodb.BatchGetItemInput, opts ...request.Option) (*dynamodb.BatchGetItemOutput, error) {
+	return fd.BatchGetItem(input)
+}
+
+// BatchGetItem mock response for dynamodb: every key is read with GetItem; keys without a stored item are
+// simply absent from the response
+func (fd *Client) BatchGetItem(input *dynamodb.BatchGetItemInput) (*dynamodb.BatchGetItemOutput, error) {
+	if err := input.Validate(); err != nil {
+		return nil, err
+	}
+
+	responses := make(map[string][]map[string]*dynamodb.AttributeValue, len(input.RequestItems))
+
+	for tableName, reqs := range input.RequestItems {
+		responses[tableName] = make([]map[string]*dynamodb.AttributeValue, 0, len(reqs.Keys))
+
+		for _, key := range reqs.Keys {
+			output, err := fd.GetItem(&dynamodb.GetItemInput{
+				TableName:                aws.String(tableName),
+				Key:                      key,
+				ConsistentRead:           reqs.ConsistentRead,
+				AttributesToGet:          reqs.AttributesToGet,
+				ExpressionAttributeNames: reqs.ExpressionAttributeNames,
+				ProjectionExpression:     reqs.ProjectionExpression,
+			})
+			if err != nil {
+				return nil, err
+			}
+
+			if len(output.Item) != 0 {
+				responses[tableName] = append(responses[tableName], output.Item)
+			}
+		}
+	}
+
+	return &dynamodb.BatchGetItemOutput{
+		Responses:       responses,
+		UnprocessedKeys: map[string]*dynamodb.KeysAndAttributes{},
+	}, nil
+}
+
 func validateWriteRequest(req *dynamodb.WriteRequest) error {
 	if req.DeleteRequest != nil && req.PutRequest != nil {
 		return awserr.New("ValidationException", "Supplied AttributeValue has more than one datatypes set, must contain exactly one of the supported datatypes", nil)
